@@ -235,7 +235,7 @@ fn step_line(interp: &Interpreter, vm: &mut VM, ictx: &mut InterpreterContext, i
 }
 
 fn finish(vm: &VM, ictx: &InterpreterContext, flows: Vec<String>) -> StreamRes {
-    StreamRes { flows, regs: read_regs(vm), memh: fnv64(&vm.mem[..]), stack: ictx.call_stack.clone() }
+    StreamRes { flows, regs: read_regs(vm), memh: fnv64(&vm.mem[..]), stack: ictx.call_stack.iter().map(|x| *x as usize).collect() }
 }
 
 fn run_alone(s: &Stream) -> StreamRes {
